@@ -1,6 +1,7 @@
 package desync
 
 import (
+	"bytes"
 	"errors"
 	"io"
 	"io/ioutil"
@@ -84,8 +85,32 @@ func NewSparseFile(name string, idx Index, s Store, opt SparseFileOptions) (*Spa
 		}
 	}
 
-	// Create the new file at full size, that was we can skip loading null-chunks,
-	// this should be a NOP if the file matches the index size already.
+	// Read the state to initialize from, if any, before anything is changed. It can
+	// be the same file as the one the state is saved to.
+	var initState []byte
+	if opt.StateInitFile != "" {
+		initState, err = os.ReadFile(opt.StateInitFile)
+		if err != nil {
+			return nil, err
+		}
+	}
+
+	// The sparse file is (re-)initialized from here on. A save state file left over
+	// from before no longer describes it and would be trusted on the next start if
+	// this one fails or the process dies before it gets to save its state. Replace
+	// it with the current, blank, state first.
+	if opt.StateSaveFile != "" {
+		if err := sf.WriteState(); err != nil {
+			return nil, err
+		}
+	}
+
+	// Create the new file at full size, that way we can skip loading null-chunks.
+	// Without a state describing it nothing is known about the content of a file
+	// that is there already, even if it is of the right size. Drop it.
+	if err = f.Truncate(0); err != nil {
+		return nil, err
+	}
 	if err = f.Truncate(idx.Length()); err != nil {
 		return nil, err
 	}
@@ -94,19 +119,12 @@ func NewSparseFile(name string, idx Index, s Store, opt SparseFileOptions) (*Spa
 	// This will concurrently load all chunks marked "done" in the state file and
 	// write them to the sparse file.
 	if opt.StateInitFile != "" {
-		initFile, err := os.Open(opt.StateInitFile)
-		if err != nil {
-			return nil, err
-		}
-		defer initFile.Close()
-		if err := loader.preloadChunksFromState(initFile, opt.StateInitConcurrency); err != nil {
+		if err := loader.preloadChunksFromState(bytes.NewReader(initState), opt.StateInitConcurrency); err != nil {
 			return nil, err
 		}
 	}
 
-	// The sparse file was (re-)initialized. A save state file left over from before
-	// no longer describes it, and would be trusted on the next start if this process
-	// dies before it gets to save its state. Replace it with the current state.
+	// Record what the initialization loaded
 	if opt.StateSaveFile != "" {
 		if err := sf.WriteState(); err != nil {
 			return nil, err
